@@ -432,6 +432,25 @@ def wild_case(draw: Any, pkgname: str) -> dict:
     modules = []
     for p in paths:
         modules.append({"path": p, "chunks": draw(module_chunks(p[-1]))})
+    # cross-module references (every module defines Plain / _Hidden / GenBox / helper of its own: name collisions galore)
+    for i, m in enumerate(modules):
+        if i == 0 or not draw(st.booleans()):
+            continue
+        other = ".".join(modules[draw(st.integers(0, i - 1))]["path"])
+        form = draw(st.sampled_from(["from_alias", "module_alias", "from_plain", "relative_star", "type_checking"]))
+        n = f"X_{m['path'][-1]}_{i}"
+        if form == "from_alias":
+            src = f"from {other} import Plain as PlainO, helper as helper_o, GenBox as GenBoxO\n\n\nclass {n}(PlainO):\n    box: GenBoxO[PlainO]\n\n    def use(self, a: PlainO, b: GenBoxO[int] = None) -> 'PlainO':\n        return helper_o(a)\n"
+        elif form == "module_alias":
+            src = f"import {other} as other_mod\n\n\nclass {n}(other_mod.Plain, other_mod._Hidden):\n    def use(self, a: other_mod.Plain) -> other_mod.GenBox[other_mod.Plain]:\n        return other_mod.helper(a)\n"
+        elif form == "from_plain":
+            src = f"from {other} import _Hidden as HiddenO\n\n\nclass {n}(HiddenO):\n    pass\n\n\ndef fn_{n}(h: HiddenO) -> list[HiddenO]:\n    return [h]\n"
+        elif form == "relative_star":
+            rel = "." * (len(m["path"]) - 1) + ".".join(other.split(".")[1:])
+            src = f"from {rel} import *\n\n\ndef fn_{n}(p: Plain) -> Plain:\n    return p\n"
+        else:
+            src = f"if TYPE_CHECKING:\n    from {other} import Plain as PlainT\n\n\ndef fn_{n}(p: 'PlainT') -> 'list[PlainT]':\n    return [p]\n"
+        m["chunks"].append({"src": src, "tags": [f"crossref:{form}"]})
     inits: dict[str, list[str]] = {}
     if draw(st.booleans()):
         lines = []
